@@ -86,8 +86,11 @@ func classB(kt string, ki int) int {
 		if ki == 12 {
 			return 7
 		}
-	case "ptr":
+	case "ptr", "chanint":
 		return ki % 4096
+	case "bool":
+		return ki % 2
+
 	}
 	return ki
 }
